@@ -106,11 +106,13 @@ CLAIMED = {
          'Lean 4 proof over translated source (RIPEMD-160, curve arithmetic, BIP340 sign/verify) + differential correspondence', '6/C20'),
  'C06': ('Kernel-checked theorems for every (r, s) in range (all byte-length classes): the hand model of the repository\'s own logic in _sign_input '
          '(low-R grinding on byte 3, decode, low-S, re-encode, hash-type byte) yields a strictly DER (BIP66) signature with r < 2^255, the low '
-         'representative of s and exactly the hash-type byte; replacing s by n-s preserves validity (secp256k1 group law proved, no hypothesis). python-ecdsa (RFC6979 signing, DER '
+         'representative of s and exactly the hash-type byte; replacing s by n-s preserves validity (secp256k1 group law proved, no hypothesis). Tier T: _sign_input is '
+         're-translated on every run (signer and DER codec of python-ecdsa as parameters, the unbounded grinding loop under a bound parameter) and proved to return a signature exactly '
+         'when the model does, the same one, so the theorem is about the translated code. python-ecdsa (RFC6979 signing, DER '
          'codec) is a parameter whose per-attempt output is logged from the real library and replayed through the model each run; the Spec predicate '
          '(strict DER, low S, low R, valid for d*G under the library digest) is evaluated on every implementation signature; determinism observed.',
          NOTE_COMMON + 'python-ecdsa signing is a parameter (validity of its signatures is checked on samples, not proved). CurveLaws is proved (BU/Proofs/CurveLawsFinal.lean), the _unconditional corollary carries no curve hypothesis.',
-         'Lean 4 proof (hand model, third-party signer as parameter) + differential correspondence', '6/C06'),
+         'Lean 4 proof over translated source (third-party signer and DER codec as parameters) + differential correspondence', '6/C06'),
  'C09': ('Kernel-checked theorems: WIF export/import round trip for every secret in [1,n-1] and one-byte prefix (generated per-network prefixes), '
          'standard form, rejection of bad checksum / other version byte / non-alphabet characters, an explicit secret is held exactly or construction '
          'fails (only the argument-less call is random), public key = d*G, SEC standard forms, and parsing the compressed, uncompressed '
